@@ -139,6 +139,45 @@ def oracle(env):
     if same is False:
         info = {'with_context': astio.canon(a).__repr__()[:0], 'hint': first_difference(a, b)}
     obs = [Obligation('the lowering of a JSX expression is the same with and without unrelated surrounding code', same, info)]
+    # temporaries are not shared with the surrounding code: a `let`/`const` the transform declares and the statement uses is used by
+    # no other statement (the slot function reads its temporary when it is rendered, long after the statement ran)
+    user = frozenset(input_ctxts(env.pre))
+    temps = set(); uses_s = set(); uses_other = set()
+    body = full.fields[0].get('body')
+
+    def gen_ids(v, into):
+        def f(x, p):
+            if isinstance(x, Adt) and x.ty == 'Ident' and x.names and isinstance(x.get('ctxt'), int) and x.get('ctxt') not in user and x.get('ctxt') != 0:
+                into.add((denote.pystr(x.get('sym')), x.get('ctxt')))
+        astio.walk(v, f)
+    for item in body:
+        it0 = deref(item)
+        inner = deref(it0.fields[0]) if it0.ty == 'ModuleItem' else it0
+        if inner.ty == 'ModuleDecl' and inner.variant == 'Import':
+            continue
+        if inner.ty == 'Stmt' and inner.variant == 'Decl' and inner.fields[0].variant == 'Var':
+            vd = deref(inner.fields[0].fields[0])
+            sp = deref(vd.get('span'))
+            if (sp.fields[0], sp.fields[1]) == (0, 0):
+                for d in vd.get('decls'):
+                    gen_ids(d.get('name'), temps)
+                    if is_some(d.get('init')):
+                        gen_ids(d.get('init'), uses_other)
+                continue
+        if inner.ty == 'Stmt' and inner.variant == 'Decl' and inner.fields[0].variant == 'Fn' and (deref(deref(inner.fields[0].fields[0].get('function')).get('span')).fields[0]) == 0:
+            continue
+        holds_s = []
+
+        def g(x, p):
+            if x is a:
+                holds_s.append(1)
+        astio.walk(inner, g)
+        if holds_s:
+            gen_ids(a, uses_s)
+        else:
+            gen_ids(inner, uses_other)
+    shared = sorted(t for t in temps if t in uses_s and t in uses_other)
+    obs.append(Obligation('a temporary the statement uses is not used by any other statement', not shared, {'shared': [x[0] for x in shared]}))
     # identifiers that look the same must denote the same helper in both modules
     for (sym, ct), name in mva.vue.items():
         pass
